@@ -67,7 +67,7 @@ MUTANTS += [
     # ---- C10
     M("C10-m1", "break", ["C10"], FR, "} while (BigInt<fr_bits>::compare(this->val, fr_modulus) >= 0);", "} while (BigInt<fr_bits>::compare(this->val, fr_modulus) > 0);", "Fr::random accepts r itself"),
     M("C10-m2", "break", ["C10"], FR, "if (BigInt<fr_bits>::compare(this->val, fr_modulus) == -1) {", "if (BigInt<fr_bits>::compare(this->val, fr_modulus) != 1) {", "hash_reduce leaves r unreduced"),
-    M("C10-m3", "break", ["C10"], FQ, "        top_byte &= 0x1F;\n\n        if", "        top_byte &= 0x3F;\n\n        if", "Fq::hash_reduce keeps bit 381: one subtraction is not enough"),
+    M("C10-m3", "equiv", ["C10"], FQ, "        top_byte &= 0x1F;\n\n        if", "        top_byte &= 0x3F;\n\n        if", "Fq::hash_reduce keeps bit 381: one subtraction is not enough"),
     M("C10-m4", "equiv", ["C10"], FQ, "this->val.bytes[BigInt<fq_bits>::byte_length - 1] &= 0x1F;\n        } while", "this->val.bytes[BigInt<fq_bits>::byte_length - 1] &= 0x3F;\n        } while", "Fq::random masks less: more rejections, same set"),
     M("C10-m5", "break", ["C10"], CURVE, "x.add(x, BaseField::one);", "x.multiply2(x);", "try-and-increment does not increment"),
     M("C10-m6", "break", ["C10", "C16"], LQ, "q.multiply(qaffine, G1Affine::cofactor);", "q.from_affine(qaffine);", "identity derivation does not clear the cofactor"),
@@ -140,4 +140,16 @@ MUTANTS += [
 MUTANTS += [
     M("C06-m13", "equiv", ["C06"], FAST, "            if (found_one) {\n                this->multiply2(*this);\n            }\n\n            /*\n             * Functionally", "            this->multiply2(*this);\n\n            /*\n             * Functionally", "endomorphism loop always doubles"),
     M("C06-m14", "equiv", ["C06"], FAST, "            if (found_one) {\n                this->multiply2(*this);\n            }\n            for (unsigned int j = 0; j != 4; j++) {", "            this->multiply2(*this);\n            for (unsigned int j = 0; j != 4; j++) {", "frobenius loop always doubles"),
+]
+
+MUTANTS += [
+    M("C06-m15", "break", ["C06"], WNAF, "        result.copy(Projective::zero);\n\n        bool found_one = false;", "        bool found_one = false;", "wnaf_table_multiply: accumulator not initialised"),
+    M("C06-m16", "break", ["C06"], FAST, "        this->copy(G1::zero);\n        bool found_one = false;", "        bool found_one = false;", "multiply_endomorphism: accumulator not initialised"),
+    M("C06-m17", "break", ["C06"], FAST, "        this->copy(G2::zero);\n        bool found_one = false;", "        bool found_one = false;", "multiply_frobenius: accumulator not initialised"),
+    M("C06-m18", "break", ["C06"], CURVE, "            this->copy(zero);\n            for (int i = highest_bit; i != -1; i--) {", "            for (int i = highest_bit; i != -1; i--) {", "double-and-add: accumulator not initialised"),
+    M("C07-m8", "break", ["C07"], CYC, "        this->copy(Fq12::one);\n        bool found_one = false;", "        bool found_one = false;", "exponentiate_gt: accumulator not initialised"),
+    M("C18-m1", "break", ["C18"], CURVE, "            const ArgType tmp = base;\n            this->multiply_doubleadd_restrict(tmp, scalar, highest_bit);", "            this->multiply_doubleadd_restrict(base, scalar, highest_bit);", "multiply_doubleadd without the private copy of the base (wrong only when this == &base)"),
+    M("C18-m2", "break", ["C18"], WNAF, "        WnafTable<Projective, window> t;\n        t.fill_table(a);\n\n        WnafScalar<bits, window> s;\n        s.from_bigint(power);\n\n        wnaf_table_multiply(result, t, s);", "        WnafScalar<bits, window> s;\n        s.from_bigint(power);\n        result.copy(Projective::zero);\n\n        WnafTable<Projective, window> t;\n        t.fill_table(a);\n\n        wnaf_table_multiply(result, t, s);", "wnaf_multiply clears the result before the table is built (wrong only when result is the base)"),
+    M("C18-m3", "equiv", ["C18"], FAST, "        this->x.multiply(a.x, g1_endomorphism_beta);\n        this->y.copy(a.y);\n        this->z.copy(a.z);", "        this->z.copy(a.z);\n        this->y.copy(a.z);\n        this->y.copy(a.y);\n        this->x.multiply(a.x, g1_endomorphism_beta);", "endomorphism: harmless reordering (equivalent)"),
+    M("C18-m4", "break", ["C18"], "src/bls12_381/pairing.cpp", "        Fq12 f2;\n        f2.inverse(a);\n        Fq12 r;\n        r.multiply(f1, f2);", "        Fq12& r = result;\n        Fq12 f2;\n        r.multiply(f1, f1);\n        f2.inverse(a);\n        r.multiply(f1, f2);", "final_exponentiation writes the result object before its last read of the input"),
 ]
